@@ -84,6 +84,11 @@ def apply_scheduled_jumps(
 
                 merged = merge_mps_tensors(state.tensors[i], state.tensors[j])
                 merged = oe.contract("ab, bcd->acd", jump_op, merged)
+                # The state is renormalized below, so a prefactor of the jump operator is irrelevant; remove it before
+                # the split, whose truncation threshold is absolute.
+                block_norm = np.linalg.norm(merged)
+                if block_norm > 0:
+                    merged = merged / block_norm
                 tensor_left_new, tensor_right_new = split_mps_tensor(
                     merged,
                     "right",
